@@ -36,6 +36,7 @@ EagerB == LocalApiLabels
 EagerNone == {}
 WSeq == [i \in 1..Cardinality(Writers) |-> plan[i]]
 RSeq == [i \in 1..Cardinality(Readers) |-> rplan[4 + i]]
+RMSeq == [i \in 1..Cardinality(Readers) |-> rmode[4 + i]]
 PSeq == IF Policers = {} THEN <<>> ELSE pplan[7]
-EmitEdge == (hist' # hist) => PrintT("SCH " \o ToJson([p |-> WSeq, rp |-> RSeq, pp |-> PSeq, s |-> hist']))
+EmitEdge == (hist' # hist) => PrintT("SCH " \o ToJson([p |-> WSeq, rp |-> RSeq, rm |-> RMSeq, pp |-> PSeq, s |-> hist']))
 =============================================================================
